@@ -134,6 +134,15 @@ def opRangeOps (a : List String) : String :=
   let es := listedEntries (a.drop 1)
   describeRange (es.foldl (fun m e => HandRange.insert m e.1 e.2) []) false
 
+/-- range_views n (combo wbits)* : only the two views (any weights: nothing is printed as text) -/
+def opRangeViews (a : List String) : String :=
+  let es := listedEntries (a.drop 1)
+  let r : HandRange UInt32 := es.foldl (fun m e => HandRange.insert m e.1 e.2) []
+  let rp := resStr (fun l => if l.isEmpty then "-" else ",".intercalate (sortStrings (l.map fun (k, w) => s!"{rpKey k}:{w.toNat}")))
+    (rankPairs f32Text r)
+  let orph := resStr (fun o => fmtEntries (entriesOf (HandRange.contents o))) (orphans f32Text r)
+  s!"ok rp={rp} orph={orph}"
+
 def opCanon (a : List String) : String :=
   let es := listedEntries (a.drop 2)
   let r : HandRange UInt32 := es.foldl (fun m e => HandRange.insert m e.1 e.2) []
@@ -217,6 +226,18 @@ def specRangeOps (a : List String) : Option String :=
   let orph := Spec.orphanView f32Eq m
   let orphS := fmtEntries (orph.map fun ((x, y), w) => (52 * x + y, w.toNat))
   some s!"all:[C09]nopanic;;[C12]has: rp={rpS} orph={orphS} ;;[C06]has: reparse=1;;[C17]has: rptext={hex (specRpText m)} octext={specOrphText orph} "
+
+/-- C12 speaks about ANY range: the two views are specified for every weight (under `f32 ==` a NaN-weighted rank pair is
+never reported; weights above 1 or below 0 are ordinary weights) -/
+def specRangeViews (a : List String) : Option String :=
+  let es := listedEntries (a.drop 1)
+  let combosOk := es.all fun e => Card.lt e.1.fst e.1.snd && e.1.fst.valid && e.1.snd.valid
+  if !combosOk then some "all:[C09]nopanic" else
+  let m := specContents es
+  let rp := Spec.rankPairView f32Eq m
+  let rpS := if rp.isEmpty then "-" else ",".intercalate (sortStrings (rp.map fun (k, w) => s!"{specRpKey k}:{w.toNat}"))
+  let orphS := fmtEntries ((Spec.orphanView f32Eq m).map fun ((x, y), w) => (52 * x + y, w.toNat))
+  some s!"=ok rp={rpS} orph={orphS}"
 
 def specCanon (_a : List String) : Option String := some "all:nopanic;;has:same=1 "
 
@@ -331,6 +352,7 @@ def textOp (op : String) (a : List String) : Option String :=
     let n (i : Nat) : Nat := (a.getD i "0").toNat!
     let rp : RankPair := if n 0 == 0 then .pocket (n 1) else if n 0 == 1 then .suited (n 1) (n 2) else .ofsuit (n 1) (n 2)
     some s!"{",".intercalate (rp.combos.map fun c => toString c.code)} text={hex rp.show}"
+  | "range_views" => some (opRangeViews a)
   | "parse_token" => some (opParseToken a)
   | "parse_range" => some (opParseRange a)
   | "token_roundtrip" => some (opTokenRoundtrip a)
@@ -351,6 +373,7 @@ def textSpec (op : String) (a : List String) : Option String :=
       | some _ => some "all:[C09]nopanic;;[C06]has:ok rt=1 "
       | none => some "all:[C09]nopanic")
   | "range_ops" => specRangeOps a
+  | "range_views" => specRangeViews a
   | "canon" => specCanon a
   | "c15" => specC15 a
   | "c11" => some "all:nopanic;;has:suits=1 players=1 pot=1 "
